@@ -241,12 +241,9 @@ func (r *Router) Group(prefix string, register func(), middles ...HandlerFunc) {
 	// handle prev middleware
 	prevHandlers := r.currentGroupHandlers
 	if len(middles) > 0 {
-		// in multi level group routes.
-		if len(prevHandlers) > 0 {
-			r.currentGroupHandlers = append(r.currentGroupHandlers, middles...)
-		} else {
-			r.currentGroupHandlers = middles
-		}
+		// Notice: always merge into a new slice. Use() in the group appends to it,
+		// that must not write into the middles slice of the caller or into the handlers of the outer group.
+		r.currentGroupHandlers = combineHandlers(prevHandlers, middles)
 	}
 
 	// call register
